@@ -998,10 +998,10 @@ fn generate_assert_no_padding(input: &DeriveInput) -> Result<TokenStream> {
     quote!(0)
   };
 
+  // Note: transmute straight to a byte array rather than to a local helper
+  // struct: a helper's name would shadow a user type of the same name here.
   Ok(quote! {const _: fn() = || {
-    #[doc(hidden)]
-    struct TypeWithoutPadding([u8; #size_sum]);
-    let _ = ::core::mem::transmute::<#struct_type, TypeWithoutPadding>;
+    let _ = ::core::mem::transmute::<#struct_type, [::core::primitive::u8; #size_sum]>;
   };})
 }
 
